@@ -187,6 +187,11 @@ struct crs {
     const crs& operator=(const crs &other) {
         free_data();
 
+        // The arrays allocated below belong to this matrix even if it used
+        // to alias user memory (zero-copy), which free_data() leaves alone.
+        ptr = 0; col = 0; val = 0;
+        own_data = true;
+
         nrows = other.nrows;
         ncols = other.ncols;
         nnz   = other.nnz;
